@@ -15,7 +15,9 @@ Independence of instances (sequences in ONE process; the Lean model is pure, so 
 after a set with extended attributes was decoded / built, a set decoded without FLAG_EXTENDED and a brand-new
 SFTPAttributes() must have an empty attr and pack to flags 0; checked up front (two-step probe, both routes, also
 piped through the model) and again on every case (a new object stays empty, a built object holds exactly its own
-pairs, a decoded object has no foreign keys).  Reporting is bounded (Budget): at most MAX_FAILS failures and
+pairs, a decoded object has no foreign keys).  Re-use of one object (build or decode set 1, pack, change the fields to set 2, pack again): the second encoding must
+be that of a fresh object with set 2's fields (pure model) and decode to exactly set 2 with set 2's flags.
+Reporting is bounded (Budget): at most MAX_FAILS failures and
 MAX_DISAGREE disagreements are recorded with clipped details, and the run stops early once objects alias.
 """
 import struct
@@ -444,6 +446,58 @@ def run(ctx):
         raise RuntimeError("generator did not cover all presence combinations")
     ctx.extra["presence_combinations_covered"] = len(combos_seen)
 
+    # ---- object re-use: _pack must be a function of the object's CURRENT fields (the model is pure).  Two-step
+    # sequences on one object: (build | decode) set 1, pack it, change the fields to set 2, pack again.
+    wf = [c for c in cases if c.well_formed() and c.tag in ("grid", "valid")]
+    n_reuse = 0 if budget.abort else (12000 if ctx.thorough else 800)
+    pairs = [(rng.choice(wf), rng.choice(wf)) for _ in range(n_reuse)]
+    # make sure clearing happens: second set with strictly fewer groups than the first
+    pairs += [(c1, Case(mode=c1.mode, tag="reuse-cleared")) for c1, _ in pairs[: n_reuse // 4]]
+    pairs += [(c1, Case(tag="reuse-empty")) for c1, _ in pairs[: n_reuse // 8]]
+    model_reuse = ctx.driver("C33", [c2.pack_req() for _, c2 in pairs])
+    for k, (c1, c2) in enumerate(pairs):
+        if budget.abort:
+            break
+        route = "decode" if k % 2 else "build"
+        m1 = Message()
+        c1.build(A)._pack(m1)
+        if route == "decode":
+            obj = A._from_msg(Message(m1.asbytes()))
+        else:
+            obj = c1.build(A)
+            obj._pack(Message())
+        obj.st_size, obj.st_uid, obj.st_gid, obj.st_mode, obj.st_atime, obj.st_mtime = c2.fields()
+        obj.attr.clear()
+        for k_, v_ in c2.ext:
+            obj.attr[k_] = v_
+        m2 = Message()
+        obj._pack(m2)
+        wire2 = m2.asbytes()
+        pres = c2.presence()
+        ctx.case(("reuse", route, c1.pack_req(), c2.pack_req()), any(pres))
+        ctx.dist("reuse:" + route)
+        case = {"step1": "%s %s and pack it" % (route, c1.describe()),
+                "step2": "set the same object's fields to %s (attr cleared and refilled) and pack again" % (c2.describe(),)}
+        if model_reuse is not None and model_reuse[k] != hx(wire2):
+            budget.disagree("pack of a re-used object (pure model vs one object)", case, model_reuse[k], hx(wire2))
+        want_flags = sum(f for f, on in zip((SPEC_FLAGS["size"], SPEC_FLAGS["uidgid"], SPEC_FLAGS["perm"],
+                                             SPEC_FLAGS["amtime"], SPEC_FLAGS["ext"]), pres) if on)
+        msg = guarded_message(Message, wire2)
+        try:
+            back = A._from_msg(msg)
+        except Runaway:
+            budget.fail("flags-stale-after-reuse", case, "second encoding does not decode (runaway extended count)")
+            continue
+        got = ([back.st_size, back.st_uid, back.st_gid, back.st_mode, back.st_atime, back.st_mtime],
+               list(back.attr.items()))
+        want = ([None if v is None else int(v) for v in c2.fields()], [(asb(k_), asb(v_)) for k_, v_ in c2.ext])
+        if obj._flags != want_flags or wire2[:4] != struct.pack(">I", want_flags) or back._flags != want_flags:
+            budget.fail("flags-stale-after-reuse", case,
+                        "second encoding: _flags=%#x wire flags=%s decoded flags=%#x, present fields give %#x" % (
+                            obj._flags, wire2[:4].hex(), back._flags, want_flags))
+        elif got != want or msg.get_remainder():
+            budget.fail("roundtrip:after-reuse", case, "sent %r decoded %r" % (want, got))
+
     # ---- malformed stream: arbitrary and mutated bytes
     for _ in range(0 if budget.abort else n_bad):
         r = rng.random()
@@ -554,6 +608,20 @@ def replay(data):
     from pv.core import unhx
 
     d = data["case"]
+    if data.get("signature") in ("flags-stale-after-reuse", "roundtrip:after-reuse"):
+        # fresh process: decode a full set, clear everything but the mode on that object, pack again
+        full = Case(size=5, uid=1, gid=2, mode=0o644, atime=3, mtime=4, ext=[(b"k", b"v")])
+        m1 = Message()
+        full.build(A)._pack(m1)
+        obj = A._from_msg(Message(m1.asbytes()))
+        obj.st_size = obj.st_uid = obj.st_gid = obj.st_atime = obj.st_mtime = None
+        obj.attr.clear()
+        m2 = Message()
+        obj._pack(m2)
+        ok = m2.asbytes() == struct.pack(">II", 4, 0o644)
+        print("decode %s; clear all but mode; pack -> %s (expected 00000004000001a4) -> %s" % (
+            m1.asbytes().hex(), m2.asbytes().hex(), "holds" if ok else "FAILS"))
+        return 0 if ok else 1
     if data.get("signature") == "instances-share-extended" or "step2" in d:
         class _Ctx:  # the probe only needs fail(); this process is fresh, so the two-step sequence starts clean
             fails = []
